@@ -4,3 +4,4 @@ pub mod kv06;
 pub mod pfx07;
 pub mod stakesim;
 pub mod buildsim;
+pub mod twin;
